@@ -363,7 +363,7 @@ pub struct SignRemoteCommitmentTx {
 
 /// LDK message to sign a local HTLC transaction.
 #[derive(SerBolt, Debug, Encodable, Decodable)]
-#[message_id(20)]
+#[message_id(1020)]
 pub struct SignLocalHtlcTx2 {
     pub tx: WithSize<Transaction>,
     pub input: u32,
